@@ -181,11 +181,40 @@ Definition arr_ok (v : jv) : bool :=
   | JAI w xs => forallb (width_ok w) xs | JAF xs => forallb (fun x => disp_ok (snd x)) xs | JAS xs => forallb str_ok xs | JAB _ | JAN _ => true
   | _ => false
   end.
+Definition iw_eqb (a b : iw) : bool :=
+  match a, b with
+  | I8, I8 | I16, I16 | I32, I32 | I64, I64 | I128, I128 | U8, U8 | U16, U16 | U32, U32 | U64, U64 | U128, U128 => true
+  | _, _ => false
+  end.
+(* a value can be read with the declared type [sch] (read_back is driven by the declared type, for arrays of objects by the FIRST element):
+   same kind at every position, same field names in the same order, null allowed anywhere in the value *)
+Fixpoint conforms (sch x : jv) {struct x} : bool :=
+  match x, sch with
+  | JNull, _ => true
+  | JS _, JS _ | JB _, JB _ | JI _ _, JI _ _ | JF _ _, JF _ _ => true
+  | JAI w _, JAI w' _ => iw_eqb w w'
+  | JAF _, JAF _ | JAS _, JAS _ | JAB _, JAB _ | JAN _, JAN _ => true
+  | JO gs, JO fs =>
+    (fix go (gl fl : list (list N * jv)) : bool :=
+       match gl, fl with
+       | [], [] => true
+       | g :: gr, f :: fr => beqs (fst g) (fst f) && conforms (snd f) (snd g) && go gr fr
+       | _, _ => false
+       end) gs fs
+  | JAO ys, JAO ss =>
+    match ss with
+    | [] => match ys with [] => true | _ => false end
+    | s0 :: _ => (fix go (l : list jv) : bool := match l with [] => true | y :: r => conforms s0 y && go r end) ys
+    end
+  | _, _ => false
+  end.
 Fixpoint tree_ok (v : jv) : bool :=
   match v with
   | JO fs => (fix go (l : list (list N * jv)) : bool := match l with [] => true | nv :: r => name_ok (fst nv) && tree_ok (snd nv) && go r end) fs
              && distinct (map fst fs)
-  | JAO _ => false
+  (* an array of objects: every element an object of the domain that can be read with the first element as its declared type *)
+  | JAO xs => (fix go (l : list jv) : bool := match l with [] => true | y :: r => (match y with JO _ => tree_ok y | _ => false end) && go r end) xs
+              && match xs with [] => true | s0 :: _ => forallb (conforms s0) xs end
   | JAI _ _ | JAF _ | JAS _ | JAB _ | JAN _ => arr_ok v
   | x => scalar_ok x
   end.
@@ -198,5 +227,6 @@ Definition in_domain (v : jv) : bool :=
   | JAF xs => forallb (fun x => disp_ok (snd x)) xs
   | JAS xs => forallb str_ok xs
   | JAB _ => true | JAN _ => true
+  | JAO _ => tree_ok v
   | _ => false
   end.
